@@ -2063,6 +2063,11 @@ impl<T, Flds> Recognizer for HeaderRecognizer<T, Flds> {
                         HeaderState::ExpectingBody
                     };
                     None
+                } else if !*has_body && matches!(&input, ReadEvent::Extant) {
+                    // An attribute without a body reaches a recognizer as no event at all when it is read
+                    // from text and as an absent value when it is read from the model: both are an empty header.
+                    *state = HeaderState::End;
+                    None
                 } else {
                     Some(Err(input.kind_error(ExpectedEvent::RecordBody)))
                 }
